@@ -88,9 +88,10 @@ def check_send(fn, payload, schedule):
     return None
 
 
-def check_recv(fn, payload, schedule, cut=None):
+def check_recv(fn, payload, schedule, cut=None, tail=b''):
+    """tail: bytes of the next message, already queued behind this one (only with a complete stream)"""
     data = payload if fn == '_recv' else struct.pack('!i', len(payload)) + payload
-    stream = data if cut is None else data[:cut]
+    stream = data + tail if cut is None else data[:cut]
     s = Script(schedule, stream)
     c = conn()
     try:
@@ -119,7 +120,10 @@ def check_recv(fn, payload, schedule, cut=None):
     if cut is not None and cut < len(data):
         return 'short stream delivered %r' % got
     if got != payload:
-        return 'received %r != sent %r' % (got, payload)
+        return 'received %r != sent %r%s' % (got, payload, ' (the next message %r was queued behind it)' % tail if tail else '')
+    if cut is None and s.rpos != len(data):
+        return 'consumed %d bytes of the stream for a message of %d (the next message %r was queued behind it)' % (
+            s.rpos, len(data), tail)
     return None
 
 
@@ -192,11 +196,12 @@ def search(fn):
                         return {'payload': list(payload), 'schedule': [list(x) if isinstance(x, tuple) else x for x in sched]}, bad
                 else:
                     total = ln if fn == '_recv' else ln + 4
-                    for cut in [None] + list(range(0, total)):
-                        bad = check_recv(fn, payload, sched, cut)
+                    for cut in [None, 'next'] + list(range(0, total)):
+                        tail = b'\x00\x00\x00\x02ZZ' if cut == 'next' else b''
+                        bad = check_recv(fn, payload, sched, None if cut == 'next' else cut, tail)
                         if bad:
                             return {'payload': list(payload), 'schedule': [list(x) if isinstance(x, tuple) else x for x in sched],
-                                    'stream_cut_at': cut}, bad
+                                    'stream_cut_at': cut, 'queued_behind': list(tail)}, bad
     return None, None
 
 
